@@ -520,6 +520,26 @@ def r15_opaque(text, start_pat, macro_pat, replacement):
     return text[:ms.start()] + replacement + text[cb + 1:], 1
 
 
+def r_wrap_calls(text, callee_pat, replacement, count=None):
+    """replace every call `CALLEE(<balanced args>)` (callee given as regex) by `replacement` (arguments dropped)."""
+    k = 0
+    pos = 0
+    pat = re.compile(callee_pat + r"\s*\(")
+    while True:
+        m = mask(text)
+        mm = pat.search(m, pos)
+        if not mm:
+            break
+        op = mm.end() - 1
+        cp = match_close(m, op)
+        text = text[:mm.start()] + replacement + text[cp + 1:]
+        pos = mm.start() + len(replacement)
+        k += 1
+    if (count is None and k == 0) or (count is not None and count >= 0 and k != count):
+        raise Undecided("wrap-calls %s: %d call sites, expected %s" % (callee_pat, k, count))
+    return text, k
+
+
 def apply_rules(text, rules, log, fn):
     """rules: list of tuples (kind, *args)."""
     for r in rules:
@@ -540,6 +560,9 @@ def apply_rules(text, rules, log, fn):
             text, k = r10_map_err(text, *r[1:])
         elif kind == "R7":
             text, k = r7_atomics(text, *r[1:])
+        elif kind == "wrapcalls":
+            text, k = r_wrap_calls(text, *r[2:])
+            kind = r[1]
         elif kind == "R15":
             text, k = r15_opaque(text, *r[1:])
         elif kind == "R10r":
